@@ -376,3 +376,9 @@ def unit_test(case):
         "assert split(' and '.join(pieces)) == pieces\n"
         "# expected pieces are stored under witness.expected in this file\n"
     )
+
+
+def ENV_SHARDS(tier):
+    """The broad, cheap families: run again in a fresh interpreter per environment (engine.run_environments)."""
+    return [s for s in shards('quick') if s[0] in ("lists", "mw", "aftersiblings") or (s[0] == "seq" and s[1][0] <= 2)]
+
